@@ -58,8 +58,8 @@ PROPS = {
     },
     "C02": {
         "test": "TestC02", "variant": "elem",
-        "quick": {"shards": 16, "timeout": 1800},
-        "thorough": {"shards": 16, "timeout": 10800},
+        "quick": {"shards": 16, "timeout": 1800, "matrix": [{"cpus": c} for c in (16, 1, 2, 3, 16, 5, 16, 2, 3, 16, 7, 1, 16, 4, 3, 16)]},
+        "thorough": {"shards": 16, "timeout": 10800, "matrix": [{"cpus": c} for c in (16, 1, 2, 3, 16, 5, 16, 2, 3, 16, 7, 1, 16, 4, 3, 16)]},
         "rule": "per case: an honest opening set (n<=8) proved by the REFERENCE prover, then 5..9 transformations from a "
                 "catalogue (value-changing: offset/replace/negate/identity for C_i, z_i, y_i (incl. y->0), D, L_j, R_j, "
                 "final scalar, swaps L/R, L/L, R/R, swapped/dropped/duplicated openings, label change, D or IPA part "
